@@ -79,6 +79,32 @@ def handle (op : String) (a : Json) : Except String Json := do
     | .ok (some c) =>
       return Json.mkObj [("source", arrJ (c.src.map geomJ)), ("target", arrJ (c.tgt.map geomJ)),
         ("tb", ratJ c.tb), ("fb", ratJ c.fb)]
+  | "holds_ind" =>
+    -- the property on an observed output judged against the independent matrix up to `tau` per entry
+    -- (`Proofs.C07.C07_holds_ind`); with `u`, `v`, `witness` the optimum of the snapped matrix is certified
+    -- (`C07_holds_ind_cert`), otherwise brute-forced
+    let (n, m, aff) ← getMatrix a
+    let out ← (← fldArr a "out").mapM getEntry
+    let tau ← fldRat a "tau"
+    let tol ← fldRat a "tol"
+    let b := snap tau aff out
+    let within := out.all fun e => match e.src, e.tgt with
+      | some i, some j => decide (aff i j - e.aff ≤ tau) && decide (e.aff - aff i j ≤ tau)
+      | _, _ => true
+    let shape := [("cover_src", boolJ ((srcs out).isPerm (List.range n))),
+      ("cover_tgt", boolJ ((tgts out).isPerm (List.range m))), ("entries", boolJ (out.all (entryOk b))),
+      ("within", boolJ within), ("total", ratJ (total out))]
+    match fldOpt a "witness" with
+    | some wj =>
+      let u := vecOf (← getRatList (← fld a "u"))
+      let v := vecOf (← getRatList (← fld a "v"))
+      let w ← (← getArr wj).mapM getPairNat
+      return Json.mkObj (shape ++ [("cert", boolJ (certOk n m b u v w)),
+        ("all", boolJ (holdsIndCert tau tol n m aff u v w out)),
+        ("optimal", boolJ (optimalByCert tol n m b u v w out)), ("best", ratJ (value b w))])
+    | none =>
+      return Json.mkObj (shape ++ [("cert", boolJ true), ("all", boolJ (holdsInd tau tol n m aff out)),
+        ("optimal", boolJ (optimalWithin tol n m b out)), ("best", ratJ (bestValue n m b))])
   | "close" =>
     -- `closeWithin τ n m a b` (hypothesis of `Proofs.C07.C07_optimal_perturb`) with `b` given as a second matrix
     let (n, m, aff) ← getMatrix a
